@@ -226,6 +226,14 @@ func (c *curvePoint) Double(a *curvePoint, pool *bnPool) {
 }
 
 func (c *curvePoint) Mul(a *curvePoint, scalar *big.Int, pool *bnPool) *curvePoint {
+	if scalar.Sign() < 0 {
+		// k*a = |k|*(-a); big.Int.Bit works on the two's complement of negative values.
+		neg := newCurvePoint(pool)
+		neg.Negative(a)
+		c.Mul(neg, new(big.Int).Neg(scalar), pool)
+		neg.Put(pool)
+		return c
+	}
 	sum := newCurvePoint(pool)
 	sum.SetInfinity()
 	t := newCurvePoint(pool)
